@@ -321,6 +321,8 @@ class TextModel:
                 sep = " "
                 items = [i for i in x.pos[1].split(sep) if _strip(i) != name or (x.rt == "U" and i != name)]
                 x.pos[1] = sep.join(items)
+                if not items:
+                    self.rm_record(x)            # a group that mentioned nothing else cannot be written: it goes too, with the groups over it
             elif r.rt == "S":
                 self.rm_record(x)
             elif r.rt in ("E", "O", "U"):
